@@ -35,6 +35,10 @@ def instances(tier):
         out.append(dict(id="slice-%s-N%d" % (fam, n), family=fam, N=n, mode="slice", dense=False, budget=b))
     out.append(dict(id="time-lookup-dense-euler-N2", family="euler", N=2, mode="time", dense=True, budget=b))
     out.append(dict(id="time-lookup-continued-euler-N2", family="euler", N=2, mode="time", dense=False, cont=True, budget=b))
+    # the run goes AGAINST the direction of the constructor's (t0, tf) span: integrate(T) with T on the other side of t0
+    for mode in ("time", "slice", "index"):
+        out.append(dict(id="%s-against-span-euler-N2" % mode, family="euler", N=2, mode=mode, dense=False, against=True, budget=b))
+    out.append(dict(id="time-against-span-dense-euler-N2", family="euler", N=2, mode="time", dense=True, against=True, budget=b))
     return out
 
 
@@ -63,7 +67,14 @@ def scenario(c, inst):
             if st != "ok":
                 return      # failures are C12's subject
             c.assume(absval(c, tf - T1) <= inst["N"] * absval(c, a.dt))
-        st, r = run(a.integrate, callback=spans.cap_callback(c, cap + 2, kind))
+        if inst.get("against"):
+            Tr = c.real("Trev")
+            c.assume((Tr - t0) * (tf - t0) < 0)
+            c.assume(absval(c, Tr - t0) <= inst["N"] * adt)
+            c.assume(absval(c, Tr - t0) >= 1.0 / 64)
+            st, r = run(a.integrate, Tr, callback=spans.cap_callback(c, cap + 2, kind))
+        else:
+            st, r = run(a.integrate, callback=spans.cap_callback(c, cap + 2, kind))
     if st != "ok":
         return
     T = list(a.t)
@@ -103,7 +114,7 @@ def scenario(c, inst):
             return
         if inst.get("dense"):
             c.check("c19.dense_lookup_time_is_query", c.eq(r.t, q))
-            lo_ok = (q - t0) * (tf - q) >= 0
+            lo_ok = (q - T[0]) * (T[-1] - q) >= 0
             if c.symbolic:
                 inside = bool(lo_ok)
             else:
